@@ -45,7 +45,7 @@ vars == <<pc, call, exp, store>>
 
 Init == /\ pc = "call" /\ IsCall(call) /\ exp = Out("none", <<>>)
         /\ store = <<call.x, call.mo>>                  \* the caller's tensors
-Return == /\ pc = "call" /\ pc' = "ret" /\ exp' = Expected(call)
+Return == /\ pc = "call" /\ pc' = "ret" /\ exp' = ErsatzExpected(call)
           /\ UNCHANGED <<call, store>>                  \* frame condition: no call modifies a caller's tensor
 Next == Return
 Spec == Init /\ [][Next]_vars
